@@ -1084,89 +1084,81 @@ def _uniquify_udts(tree):
     return walk(tree)
 
 
-def _pick(options):
-    """uniform choice between strategies, robust against hypothesis' bias towards early branches"""
-    options = list(options)
-    if len(options) == 1:
-        return options[0]
-    return st.integers(0, 2 ** 16 - 1).flatmap(lambda i: options[i % len(options)])
+_IDX = st.integers(0, 2 ** 16 - 1)
 
 
-def _choice(seq):
-    seq = list(seq)
-    return st.integers(0, 2 ** 16 - 1).map(lambda i: seq[i % len(seq)])
+def _pick(draw, seq):
+    """uniform choice (hypothesis' own sampled_from/one_of favour early branches); shrinks to seq[0]"""
+    return seq[draw(_IDX) % len(seq)]
 
 
-def type_trees(max_depth=3, top_level=True, vectors=True, udts=True, wrappers=True, scalars=SCALARS):
+def _draw_tree(draw, d, mode, cfg):
+    """scalar or container of depth <= d; mode: "any" | "set" (orderable) | "key" (keyable)"""
+    if d <= 0 or _pick(draw, (0, 1, 1)) == 0:
+        return T(_pick(draw, cfg["nested"] if mode == "any" else cfg["keys"]))
+    return _draw_container(draw, d, mode, cfg)
+
+
+def _draw_fields(draw, d, mode, cfg):
+    """1-4 field types: one of full remaining depth, the others scalars or depth-1 containers"""
+    n_rest = _pick(draw, (0, 1, 1, 2, 3))
+    rest = [_draw_tree(draw, min(d - 1, 1), mode, cfg) for _ in range(n_rest)]
+    pos = draw(_IDX) % (len(rest) + 1)
+    return rest[:pos] + [_draw_tree(draw, d - 1, mode, cfg)] + rest[pos:]
+
+
+def _draw_container(draw, d, mode, cfg):
+    kinds = ["list", "set", "tuple"]
+    if mode != "set":
+        kinds.append("map")
+    if cfg["udts"]:
+        kinds.append("udt")
+    if cfg["vectors"]:
+        kinds.append("vector")
+    k = _pick(draw, kinds)
+    if k == "list":
+        t = t_list(_draw_tree(draw, d - 1, mode, cfg))
+    elif k == "set":
+        t = t_set(_draw_tree(draw, d - 1, "set", cfg))
+    elif k == "tuple":
+        t = t_tuple(_draw_fields(draw, d, mode, cfg))
+    elif k == "map":
+        if _pick(draw, (0, 0, 1)) == 0:
+            t = t_map(_draw_tree(draw, min(d - 1, 1), "key", cfg), _draw_tree(draw, d - 1, mode, cfg))
+        else:
+            t = t_map(_draw_tree(draw, d - 1, "key", cfg), _draw_tree(draw, min(d - 1, 1), mode, cfg))
+    elif k == "udt":
+        subs = _draw_fields(draw, d, mode, cfg)
+        start = draw(_IDX) % len(_FIELD_NAMES)
+        names = [_FIELD_NAMES[(start + 3 * i) % len(_FIELD_NAMES)] for i in range(len(subs))]
+        t = t_udt(_pick(draw, ("ks", "ks1")), _pick(draw, _UDT_NAMES), list(zip(names, subs)))
+    else:
+        return t_vector(_draw_tree(draw, d - 1, mode, cfg), _pick(draw, (1, 1, 2, 2, 3, 4, 5)))
+    if cfg["wrappers"] and _pick(draw, (0, 1)):
+        t = t_frozen(t)
+    return t
+
+
+@st.composite
+def type_trees(draw, max_depth=3, top_level=True, vectors=True, udts=True, wrappers=True, scalars=SCALARS):
     """Type trees of container depth <= max_depth (the depth itself is drawn first, so every depth is well
     populated).  Set elements are orderable(), map keys keyable(), counters only at top level, vectors have
-    dimension >= 1, nested collections are wrapped in frozen<> about half of the time, `reversed` only at top
+    dimension >= 1, collections are wrapped in frozen<> about half of the time, `reversed` only at top
     level.  Trees stay lean: a container has one child of full remaining depth, its other children are
     scalars or depth-1 containers."""
     scalars = tuple(scalars)
-    nested_scalars = tuple(s for s in scalars if s != "counter") or scalars
-    key_scalars = tuple(s for s in nested_scalars if s not in ("duration",)) or nested_scalars
-    memo = {}
-
-    def maybe_frozen(s):
-        if not wrappers:
-            return s
-        return _pick([s, s.map(t_frozen)])
-
-    def scalar(mode):
-        return _choice(nested_scalars if mode == "any" else key_scalars).map(T)
-
-    def level(d, mode):
-        """scalar or container of depth <= d"""
-        if d <= 0:
-            return scalar(mode)
-        key = ("L", d, mode)
-        if key not in memo:
-            memo[key] = _pick([scalar(mode), container(d, mode), container(d, mode)])
-        return memo[key]
-
-    def fields(d, mode):
-        """1-4 field types, one of them deep"""
-        deep = level(d - 1, mode)
-        small = level(min(d - 1, 1), mode)
-        return st.builds(lambda dp, rest, pos: rest[:pos % (len(rest) + 1)] + [dp] + rest[pos % (len(rest) + 1):],
-                         deep, st.lists(small, min_size=0, max_size=3), st.integers(0, 3))
-
-    def container(d, mode):
-        # mode: "any" | "set" (orderable) | "key" (keyable)
-        key = ("C", d, mode)
-        if key in memo:
-            return memo[key]
-        deep = level(d - 1, mode)
-        colls = [deep.map(t_list),
-                 level(d - 1, "set").map(t_set),
-                 fields(d, mode).map(t_tuple)]
-        if mode != "set":
-            kmode = "key"
-            colls.append(_pick([st.builds(t_map, level(min(d - 1, 1), kmode), deep),
-                                st.builds(t_map, level(d - 1, kmode), level(min(d - 1, 1), mode))]))
-        if udts:
-            def mk_udt(ks, name, subs, names):
-                return t_udt(ks, name, list(zip(names[:len(subs)], subs)))
-            colls.append(st.builds(mk_udt, st.sampled_from(["ks", "ks1"]), st.sampled_from(_UDT_NAMES), fields(d, mode),
-                                   st.permutations(_FIELD_NAMES)))
-        opts = [maybe_frozen(c) for c in colls]
-        if vectors:
-            opts.append(st.builds(t_vector, deep, st.sampled_from([1, 1, 2, 2, 3, 4, 5])))
-        memo[key] = _pick(opts)
-        return memo[key]
-
-    depths = sorted(set(range(0, max_depth + 1)))
-    weighted = [d for d in depths for _ in range((1, 2, 3, 3, 3, 3, 3)[min(d, 6)])]
-    body = _pick([scalar("any") if d == 0 else container(d, "any") for d in weighted])
-    if top_level:
-        tops = [body] * 6
-        if "counter" in scalars:
-            tops.append(st.just(T("counter")))
-        if wrappers:
-            tops.append(body.map(t_reversed))
-        body = _pick(tops)
-    return body.map(_uniquify_udts)
+    nested = tuple(s for s in scalars if s != "counter") or scalars
+    cfg = {"nested": nested, "keys": tuple(s for s in nested if s != "duration") or nested,
+           "vectors": vectors, "udts": udts, "wrappers": wrappers}
+    weighted = [d for d in range(0, max_depth + 1) for _ in range((1, 2, 3, 3, 3, 3, 3)[min(d, 6)])]
+    d = _pick(draw, weighted)
+    top = _pick(draw, (0, 0, 0, 0, 0, 0, 1, 2)) if top_level else 0
+    if top == 1 and "counter" in scalars:
+        return T("counter")
+    tree = T(_pick(draw, nested)) if d == 0 else _draw_container(draw, d, "any", cfg)
+    if top == 2 and wrappers:
+        tree = t_reversed(tree)
+    return _uniquify_udts(tree)
 
 
 def _int_bounds(lo, hi, bits):
@@ -1314,60 +1306,78 @@ def ukey(tree, v):
     return tuple(ukey(sub, x) for sub, x in zip(subs, v))
 
 
-def value_for(tree, nulls=True, short_tuples=True, max_len=4, key_position=False, short_udts=False, _lvl=0):
-    """Strategy of tagged values of `tree` (never a top-level None).  In key positions (set elements,
-    map keys, and everything below them) there are no nulls, no short tuples and no NaN.
-    short_udts=True also produces UDT values with trailing fields missing (what Cassandra sends for
-    rows written before an ALTER TYPE ... ADD; a driver cannot *send* those)."""
+_SIZES = ((0, 1, 1, 2, 2, 3, None), (0, 1, 1, 2, 3), (0, 1, 1, 2))
+
+
+def _draw_value(draw, tree, o, key, lvl):
     t = tree["t"]
     if t in ("frozen", "reversed"):
-        return value_for(tree["of"], nulls, short_tuples, max_len, key_position, short_udts, _lvl)
+        return _draw_value(draw, tree["of"], o, key, lvl)
     if t in _SCALAR_SET:
-        s = _scalar_strategy(t)
-        if key_position and t in ("float", "double"):
-            s = s.filter(lambda x: x != "nan")
-        return s
-    # element counts shrink with the nesting level so that deep values stay within hypothesis' buffer
-    sizes = st.sampled_from(([0, 1, 1, 2, 2, 3, max_len], [0, 1, 1, 2, 3], [0, 1, 1, 2])[min(_lvl, 2)])
+        v = draw(_scalar_strategy(t))
+        if key and v == "nan":
+            v = 0.0
+        return v
 
-    def nullable(sub_tree, key=False):
-        s = value_for(sub_tree, nulls, short_tuples, max_len, key_position or key, short_udts, _lvl + 1)
-        if nulls and not key_position and not key:
-            return st.one_of(s, s, s, s, s, s, s, st.none())
-        return s
+    def element(sub, as_key=False):
+        if o["nulls"] and not key and not as_key and draw(_IDX) % 8 == 7:
+            return None
+        return _draw_value(draw, sub, o, key or as_key, lvl + 1)
 
+    # element counts shrink with the nesting level so that deep values stay small
+    n = _pick(draw, _SIZES[min(lvl, 2)])
+    if n is None:
+        n = o["max_len"]
     if t == "list":
-        el = nullable(tree["of"])
-        return sizes.flatmap(lambda n: st.lists(el, min_size=n, max_size=n))
+        return [element(tree["of"]) for _ in range(n)]
     if t == "set":
-        el = nullable(tree["of"], key=True)
-        sub = tree["of"]
-        return sizes.flatmap(lambda n: st.lists(el, min_size=0, max_size=n, unique_by=lambda x: ukey(sub, x)))
+        out, seen = [], set()
+        for _ in range(n):
+            x = element(tree["of"], True)
+            k = ukey(tree["of"], x)
+            if k not in seen:
+                seen.add(k)
+                out.append(x)
+        return out
     if t == "map":
-        k = nullable(tree["k"], key=True)
-        v = nullable(tree["v"])
-        kt = tree["k"]
-        return sizes.flatmap(lambda n: st.lists(st.tuples(k, v).map(list), min_size=0, max_size=n,
-                                                unique_by=lambda p: ukey(kt, p[0])))
+        out, seen = [], set()
+        for _ in range(n):
+            kx = element(tree["k"], True)
+            vx = element(tree["v"])
+            k = ukey(tree["k"], kx)
+            if k not in seen:
+                seen.add(k)
+                out.append([kx, vx])
+        return out
     if t == "vector":
-        el = value_for(tree["of"], nulls, short_tuples, max_len, key_position, short_udts, _lvl + 1)
-        return st.lists(el, min_size=tree["dim"], max_size=tree["dim"])
+        return [_draw_value(draw, tree["of"], o, key, lvl + 1) for _ in range(tree["dim"])]
     if t in ("tuple", "udt"):
         subs = tree["of"] if t == "tuple" else [f[1] for f in tree["fields"]]
-        full = st.tuples(*[nullable(sub) for sub in subs]).map(list)
-        if ((t == "tuple" and short_tuples) or (t == "udt" and short_udts)) and not key_position and len(subs) > 1:
-            short = st.integers(1, len(subs) - 1).flatmap(
-                lambda n: st.tuples(*[nullable(sub) for sub in subs[:n]]).map(list))
-            return st.one_of(full, full, full, full, short)
-        return full
+        m = len(subs)
+        if ((t == "tuple" and o["short_tuples"]) or (t == "udt" and o["short_udts"])) and not key and m > 1:
+            if draw(_IDX) % 5 == 4:
+                m = 1 + draw(_IDX) % (m - 1)
+        return [element(sub) for sub in subs[:m]]
     raise ValueError(t)
 
 
-def typed_values(max_depth=3, nulls=True, short_tuples=True, max_len=4, short_udts=False, **tree_kw):
+@st.composite
+def value_for(draw, tree, nulls=True, short_tuples=True, max_len=4, key_position=False, short_udts=False):
+    """Strategy of tagged values of `tree` (never a top-level None), built by construction.  In key
+    positions (set elements, map keys, and everything below them) there are no nulls, no short tuples and
+    no NaN; set elements / map keys are distinct under ukey().  short_udts=True also produces UDT values
+    with trailing fields missing (what Cassandra sends for rows written before an ALTER TYPE ... ADD; a
+    driver cannot *send* those)."""
+    o = {"nulls": nulls, "short_tuples": short_tuples, "short_udts": short_udts, "max_len": max_len}
+    return _draw_value(draw, tree, o, key_position, 0)
+
+
+@st.composite
+def typed_values(draw, max_depth=3, nulls=True, short_tuples=True, max_len=4, short_udts=False, **tree_kw):
     """strategy of (tree, value) pairs"""
-    return type_trees(max_depth, **tree_kw).flatmap(
-        lambda tr: st.tuples(st.just(tr), value_for(tr, nulls=nulls, short_tuples=short_tuples, max_len=max_len,
-                                                    short_udts=short_udts)))
+    tree = draw(type_trees(max_depth, **tree_kw))
+    o = {"nulls": nulls, "short_tuples": short_tuples, "short_udts": short_udts, "max_len": max_len}
+    return (tree, _draw_value(draw, tree, o, False, 0))
 
 
 # ---------------------------------------------------------------------------------------------------
